@@ -49,6 +49,16 @@ def fixed_cases(tier):
             spec = {"repr": adm[0], "vis": "pub", "ident": "E", "enum_attrs": [],
                     "variants": [{"ident": "V%d" % i, "disc": str(v)} for i, v in enumerate(vals)]}
             out.append({"spec": spec, "cfg": S.simple_config(E.ALL_FEATURES), "reprs": adm[1:], "perm_seeds": [3], "seed": 0})
+    # structured value sets (flags, flags with an unused bit, arithmetic, mirrored, blocks, a wide span) under every repr
+    # that can hold them: a fast path chosen by the value pattern must not depend on the repr's signedness or width
+    structured = [[1, 2, 4, 8], [1, 2, 4, 8, 16, 32, 64], [0, 1, 2, 4, 8], [1, 2, 8, 16], [3, 6, 9, 12, 15], [0, 10, 20, 30],
+                  [-3, -2, -1, 1, 2, 3], [-100, 0, 1, 100], [0, 1, 2, 3, 4], [10, 11, 20, 21, 30, 31, 32], [5, 6, 7, 100, 101, 102, 120],
+                  [-128, -1, 0, 127], [0, 127, 128, 255], [2, 3, 5, 7, 11, 13]]
+    for vals in structured:
+        adm = [r for r in M.REPRS if M.repr_domain(r)[0] <= vals[0] and vals[-1] <= M.repr_domain(r)[1]]
+        spec = {"repr": adm[0], "vis": "pub", "ident": "E", "enum_attrs": [],
+                "variants": [{"ident": "V%d" % i, "disc": str(v)} for i, v in enumerate(vals)]}
+        out.append({"spec": spec, "cfg": S.simple_config(E.ALL_FEATURES), "reprs": adm[1:], "perm_seeds": [5], "seed": 2})
     # a map that fills an 8-bit repr completely, under the 8-bit repr and under wider twins, in every iterator mode
     for r, vals, twins in (("u8", list(range(256)), ["u16", "i16", "u64"]), ("i8", list(range(-128, 128)), ["i16", "i64", "isize"])):
         for md in ("next_and_back", "table", None):
